@@ -65,14 +65,20 @@ class SymChars:
         return ctx.ex.alloc(ctx.st, Seq.of([CI(c.v, 8) if isinstance(c, CI) else z3.Extract(7, 0, bv(c)) for c in self.chars]))
 
     def parse_model(self, ctx, t):
-        if len(self.chars) != 1:
-            raise Unsupported('parse of a multi-character symbolic string')
-        c = self.chars[0]
+        """std's str::parse::<uN> on a string of decimal digits (its contract; the std implementation is not executed):
+        Ok(value) iff every character is a digit and the value fits; supported up to 4 characters"""
+        n = len(self.chars)
+        if n == 0 or n > 4:
+            raise Unsupported('parse of a symbolic string of %d characters' % n)
         w = 64 if t in ('u64', 'usize') else {'u8': 8, 'u16': 16, 'u32': 32}[t]
-        c = bv(c)
-        isd = z3.And(z3.UGE(c, 48), z3.ULE(c, 57))
-        val = z3.ZeroExt(w - 8, z3.Extract(7, 0, c - 48)) if w > 8 else z3.Extract(7, 0, c - 48)
-        return Enum(z3.If(isd, z3.BitVecVal(0, 64), z3.BitVecVal(1, 64)), {0: (val,), 1: (Opaque('ParseIntError'),)})
+        cs = [bv(c) if not isinstance(c, CI) else z3.BitVecVal(c.v, 32) for c in self.chars]
+        isd = z3.And(*[z3.And(z3.UGE(c, 48), z3.ULE(c, 57)) for c in cs])
+        val = z3.BitVecVal(0, 32)
+        for c in cs:
+            val = val * 10 + (c - 48)
+        fits = z3.ULT(val, 1 << w) if w < 32 else z3.BoolVal(True)
+        v = z3.Extract(w - 1, 0, val) if w < 32 else (z3.ZeroExt(w - 32, val) if w > 32 else val)
+        return Enum(z3.If(z3.And(isd, fits), z3.BitVecVal(0, 64), z3.BitVecVal(1, 64)), {0: (simp(v),), 1: (Opaque('ParseIntError'),)})
 
     def ite_with(self, g, o):
         if len(self.chars) != len(o.chars):
@@ -501,32 +507,43 @@ def ep_case(run):
             report(run, name, 'panic on a valid field: %s' % (ob,), BATTERY)
 
 
-def clock_case(run, which):
-    name = 'CLOCK/' + which
+def clock_case(run, which, ndigits):
+    """the counters as strings of 1..4 symbolic decimal digits (no leading-zero restriction), value <= 6000"""
+    name = 'CLOCK/%s/%d-digits' % (which, ndigits)
     prog = run.prog
     ex = run.executor()
     install(ex)
-    U.install(ex)
     bv0, P0, dom = sym_builder(prog, 'b')
-    tok = U.TokV(CI(U.NUM, 8) if isinstance(U.NUM, int) else U.NUM, z3.BitVec('n', U.NUMW))
-    n = bv(tok.num)
-    for p in dom + [z3.ULE(n, 6000)]:
+    cs = [z3.BitVec('digit%d' % i, 32) for i in range(ndigits)]
+    val = z3.BitVecVal(0, 32)
+    for c in cs:
+        val = val * 10 + (c - 48)
+    pre = [z3.And(z3.UGE(c, 48), z3.ULE(c, 57)) for c in cs] + [z3.ULE(val, 6000)]
+    for p in dom + pre:
         ex.assume(p)
     st = State()
-    r = ex.call(SER + which, [bv0, tok], [BUILDER, '&str'], BUILDER, st, 'harness')
+    r = ex.call(SER + which, [bv0, SymChars(cs)], [BUILDER, '&str'], BUILDER, st, 'harness')
     run.absorb(ex)
-    out, st2 = r
-    po = builder_parts(prog, out)
+    if r is None:
+        out, st2 = None, None
+    else:
+        out, st2 = r
     key = 'hmc' if which == 'halfmove_clock' else 'fmc'
-    bad = [po[key] != z3.Extract(15, 0, n), z3.Not(same_builder(prog, out, bv0, except_=(key,)))]
-    if not run.witness(name, ex.pre + [zb(st2.guard), n == 150]):
-        return
-    q = run.decide(name, ex.pre + [zb(st2.guard), z3.Or(*bad)], kind='smt', note='the counter is the number written (<= 6000); nothing else changes')
-    if q.verdict == 'sat':
-        nv = q.model.eval(n, model_completion=True).as_long()
-        report(run, name, 'counter %d not stored as parsed' % nv, ['4k3/8/8/8/8/8/8/4K3 w - - %d %d' % (min(nv, 150), max(nv, 1))] + BATTERY)
+
+    def crafted(m):
+        nv = m.eval(val, model_completion=True).as_long() if m is not None else 300
+        txt = ''.join(chr(m.eval(c, model_completion=True).as_long()) for c in cs) if m is not None else '300'
+        return ['4k3/8/8/8/8/8/8/4K3 w - - %s %s' % ((txt, '1') if key == 'hmc' else ('0', txt))] + BATTERY
+    if st2 is not None:
+        po = builder_parts(prog, out)
+        bad = [po[key] != z3.Extract(15, 0, val), z3.Not(same_builder(prog, out, bv0, except_=(key,)))]
+        if not run.witness(name, ex.pre + [zb(st2.guard)]):
+            return
+        q = run.decide(name, ex.pre + [zb(st2.guard), z3.Or(*bad)], kind='smt', note='the counter is the number written (<= 6000); nothing else changes')
+        if q.verdict == 'sat':
+            report(run, name, 'counter %s not stored as parsed' % q.model.eval(val, model_completion=True), crafted(q.model))
     for ob, qq in run.check_obligations(ex, name):
-        report(run, name, 'panic on a valid field: %s' % (ob,), BATTERY)
+        report(run, name, 'panic on a valid counter %s: %s' % (qq.model.eval(val, model_completion=True), ob), crafted(qq.model))
 
 
 # ------------------------------------------------------------------ HIST, BUILD, INV, WIRE
@@ -798,7 +815,7 @@ def check(run, replay=None):
         run.inconclusive.append('data layout differs')
         return
     run.extra['explanation'] = __doc__
-    jobs = [('PLACE-STEP',), ('PLACE-EXIT',), ('PLACE-INIT',), ('TURN',), ('EP',), ('CLOCK', 'halfmove_clock'), ('CLOCK', 'fullmove_counter')]
+    jobs = [('PLACE-STEP',), ('PLACE-EXIT',), ('PLACE-INIT',), ('TURN',), ('EP',)] + [('CLOCK', w_, k_) for w_ in ('halfmove_clock', 'fullmove_counter') for k_ in (1, 2, 3, 4)]
     jobs += [('CASTLE', L) for L in (1, 2, 3, 4)]
     jobs += [('HIST',), ('BUILD',), ('INV', B.WHITE), ('INV', B.BLACK), ('WIRE', 4), ('WIRE', 5), ('WIRE', 6)]
     run.parallel(worker, jobs)
